@@ -79,7 +79,7 @@ def tasks(tier, seed):
                             full = (ci == 0 and rm == 'RNE')
                             if not full and not (op in ('fdim', 'mod', 'div') and (sa, sb) in ((0, 1), (1, 0)) and rm == 'RNE'):
                                 continue
-                        ts.append(dict(kind='mpfrpath', name='mpfr/%s/%s/s%d%d' % (op, G.name_of(dd), sa, sb), desc=dd, op=op, sa=sa, sb=sb))
+                        ts.append(dict(kind='mpfrpath', name='mpfr/%s/%s/s%d%d' % (op, G.name_of(dd), sa, sb), desc=dd, op=op, sa=sa, sb=sb, cost=10 if op in ('mod', 'div', 'mul') else 5))
             for op in OPS1:
                 for sa in (0, 1):
                     if op == 'sqrt' and sa:
@@ -92,7 +92,7 @@ def tasks(tier, seed):
                     for sc in (0, 1):
                         if quick and not (ci == 0 and rm == 'RNE' and (sa, sb, sc) in ((0, 0, 1), (1, 0, 0))):
                             continue
-                        ts.append(dict(kind='mpfrpath', name='mpfr/fma/%s/s%d%d%d' % (G.name_of(dd), sa, sb, sc), desc=dd, op='fma', sa=sa, sb=sb, sc=sc))
+                        ts.append(dict(kind='mpfrpath', name='mpfr/fma/%s/s%d%d%d' % (G.name_of(dd), sa, sb, sc), desc=dd, op='fma', sa=sa, sb=sb, sc=sc, cost=12))
             for op in RINT:
                 for sa in (0, 1):
                     ts.append(dict(kind='rint', name='rint/%s/%s/s%d' % (op, G.name_of(dd), sa), desc=dd, op=op, sa=sa))
